@@ -124,22 +124,20 @@ func (h *Handler) HandleReadDir(ctx *Context) []fs.FileInfo {
 	log = log.With(slog.String("path", ctx.State.CwdHandle.Name()))
 	log.InfoContext(ctx, "Read dir")
 
-	entries, err := ctx.State.CwdHandle.Readdir(-1)
+	names, err := ctx.State.CwdHandle.Readdirnames(-1)
 	if err != nil {
 		log.WarnContext(ctx, "Read dir failed", logutil.ErrorAttr(err))
 		return []fs.FileInfo{}
 	}
 
 	var files []fs.FileInfo
-	for _, entry := range entries {
-		if entry.Mode()&fs.ModeSymlink != 0 {
-			// Stat to resolve symlink
-			entry, err = h.Fs.Stat(filepath.Join(ctx.State.CwdHandle.Name(), entry.Name()))
-			if err != nil {
-				log.WarnContext(ctx, "Stat failed", logutil.ErrorAttr(err))
-				// Ignore broken symbolic links
-				continue
-			}
+	for _, name := range names {
+		// Stat to resolve symlink. Entry that can't be examined (broken symbolic link, too long path, ...)
+		// is skipped like HandleReadDirEntry does, it must not hide all other entries.
+		entry, err := h.Fs.Stat(filepath.Join(ctx.State.CwdHandle.Name(), name))
+		if err != nil {
+			log.WarnContext(ctx, "Stat failed", logutil.ErrorAttr(err))
+			continue
 		}
 		files = append(files, entry)
 	}
